@@ -197,8 +197,10 @@ Proof.
             | first [ apply P7; auto; fail
                     | apply P7; right; eapply In_fst_remove_id_inv; eassumption
                     | apply P8; assumption ] ]; fail).
-  pget_split H; [discriminate|]. apply hrem_fst_keep; [|apply P8; assumption].
-  intros ->. rewrite Nat.eqb_refl in E. discriminate.
+  all: try (match goal with H : items _ = [] |- _ => rewrite H in * end; simpl in *; tauto).
+  all: try (apply P7; auto; fail).
+  all: try (pget_split H; [discriminate|]; apply hrem_fst_keep; [|apply P8; assumption];
+            intros ->; rewrite Nat.eqb_refl in E; discriminate).
 Qed.
 
 (* the invariant holds in every reachable state *)
